@@ -478,6 +478,7 @@ fn translate_block(
                 | capstone::mips_insn::MIPS_INS_BEQZ
                 | capstone::mips_insn::MIPS_INS_BGEZ
                 | capstone::mips_insn::MIPS_INS_BGTZ
+                | capstone::mips_insn::MIPS_INS_BLEZ
                 | capstone::mips_insn::MIPS_INS_BLTZ
                 | capstone::mips_insn::MIPS_INS_BNE
                 | capstone::mips_insn::MIPS_INS_BNEZ
